@@ -96,3 +96,9 @@ package hdkeychain
 //@   assert-at call DoubleHashB private-key-zero-byte-and-left-padded-to-32: k.isPrivate ==> arg0[45] == 0 && (forall j int :: 0 <= j && j < 32 - len(k.key) ==> arg0[46 + j] == 0) && (forall j int :: 0 <= j && j < len(k.key) ==> arg0[78 - len(k.key) + j] == k.key[j])
 //@   assert-at call DoubleHashB public-key-as-is: !k.isPrivate ==> (forall j int :: 0 <= j && j < 33 ==> arg0[45 + j] == k.key[j])
 //@   assert-at call Encode checksum-is-the-first-4-bytes-of-the-double-hash: len(arg0) == 82 && cap(arg0) == 82 && (forall j int :: 0 <= j && j < 4 ==> arg0[78 + j] == lastresult("DoubleHashB")[j])
+
+// ECPrivKey: read-only; a key object comes back exactly when no error does (used by C05: every address gets a key)
+//@ func (*ExtendedKey).ECPrivKey
+//@   attr trusted
+//@   modifies nothing
+//@   ensures key-or-error: err == nil ==> result0 != nil
